@@ -163,6 +163,12 @@ def rand_xml_tree(rng, depth=0):
 
 
 def rand_dict_tree(rng):
+    def odd_keys(d):
+        # keys that are no text (YAML reads  on: / 1: / null:  that way), case variants and python-side aliases of keys
+        if rng.random() < 0.12:
+            d[rng.choice([True, False, 1, 0, None, 2.5, "Name", "NAME", "Sections", "Properties", "Dtype", "Values",
+                          "Type", "oid", "values", "", " name"])] = rng.choice(["x", 1, None, [], [{"name": "k", "type": "t"}]])
+
     def scalar():
         r = rng.random()
         if r < 0.5:
@@ -179,6 +185,7 @@ def rand_dict_tree(rng):
             d[k] = scalar()
         if rng.random() < 0.3:
             d["value"] = rng.choice([[1, 2], ["a"], "x", [1, "a"], 5, None, [[1]], "[1,2]", {"a": 1}])
+        odd_keys(d)
         return d if rng.random() < 0.95 else rng.choice([None, 5, "x", []])
 
     def sec(depth):
@@ -194,10 +201,12 @@ def rand_dict_tree(rng):
             d["properties"] = [prop() for _ in range(rng.choice([0, 1, 2, 3]))]
         if depth < 3 and rng.random() < 0.6:
             d["sections"] = [sec(depth + 1) for _ in range(rng.choice([0, 1, 2]))]
+        odd_keys(d)
         return d if rng.random() < 0.95 else rng.choice([None, 5, "x", []])
     doc = {}
     for k in rng.sample(["author", "date", "version", "repository", "id", "foo", "oid"], rng.randrange(0, 4)):
         doc[k] = scalar()
+    odd_keys(doc)
     if rng.random() < 0.9:
         doc["sections"] = [sec(0) for _ in range(rng.choice([0, 1, 2, 3]))]
     root = {"Document": doc, "odml-version": rng.choice(["1.1"] * 8 + ["1.0", 1.1, None, "1"])}
